@@ -76,7 +76,13 @@ public:
     ~ThreadPool()
     {
       Job job = {0, 0};
+      // one terminate job per worker that is still running; workers that already retired stay in the list until the next prune, but nobody would
+      // consume a job queued for them
+      usize runningThreads = 0;
       for (PoolList<ThreadContext>::Iterator i = _threads.begin(), end = _threads.end(); i != end; ++i)
+        if (!i->_terminated)
+          ++runningThreads;
+      for (; runningThreads > 0; --runningThreads)
       {
         while (!_queue.push(job))
         {
